@@ -2,7 +2,8 @@
 """Copy finished round-3 seeder outputs /tmp/seed3/<id>/out/mK into seeded/<id>/m<next> (idempotent:
 records origin in meta.json and skips an origin already collected)."""
 import json, os, shutil, sys, glob, re
-root = '/tmp/seed3'
+root = os.environ.get('SEED_ROOT', '/tmp/seed3')
+rnd = int(os.environ.get('SEED_ROUND', '3'))
 ids = sys.argv[1:] or sorted(d for d in os.listdir(root) if re.fullmatch(r'C\d\d', d))
 for pid in ids:
     outs = sorted(glob.glob(f'{root}/{pid}/out/m*'))
@@ -15,7 +16,7 @@ for pid in ids:
         except Exception:
             pass
     for o in outs:
-        origin = f's3-{pid.lower()}:{os.path.basename(o)}'
+        origin = f's{rnd}-{pid.lower()}:{os.path.basename(o)}'
         if origin in have:
             continue
         if not os.path.exists(f'{o}/patch.diff'):
@@ -30,6 +31,6 @@ for pid in ids:
             meta = json.load(open(mp))
         except Exception:
             meta = {'raw_meta': open(mp).read() if os.path.exists(mp) else ''}
-        meta['origin'] = origin; meta['round'] = 3
+        meta['origin'] = origin; meta['round'] = rnd
         json.dump(meta, open(mp, 'w'), indent=1)
         print(pid, os.path.basename(o), '->', dst)
